@@ -295,12 +295,14 @@ inline void watchdog_main() {
         if (cur != last || g_team.expect_blocked.load(std::memory_order_relaxed)) { last = cur; still = 0; quiet = 0; continue; }
         still++;
         std::string desc;
-        if (process_quiescent(self, desc)) quiet++; else quiet = 0;
+        if (process_quiescent(self, desc)) quiet++;
         const char *kind = nullptr;
-        // 2.5 s of provable quiescence without progress. Under ThreadSanitizer 15 s: while the runtime prints a report (symbolising
-        // through an external process) every thread sleeps on the report lock for seconds - that is not a hang of the program.
-        const int quiet_needed = VF_UNDER_TSAN ? 300 : 50;
-        if (quiet >= quiet_needed) kind = "hang";
+        // Hang: no progress for 5 s while (almost) every sample found every thread asleep or parked at a barrier. 90 % instead of 100 %
+        // because harness threads that POLL with short sleeps are caught running now and then; a working program is never 90 % asleep
+        // without finishing a case. Under ThreadSanitizer 15 s: while the runtime prints a report (symbolising through an external
+        // process) every thread sleeps on the report lock for seconds - that is not a hang of the program.
+        const int window = VF_UNDER_TSAN ? 300 : 100;
+        if (still >= window && quiet * 10 >= still * 9) kind = "hang";
         else if (still >= 20 * 240) kind = "livelock"; // 4 minutes without a single finished case
         if (kind) {
             report *r = g_active_report.load(std::memory_order_relaxed);
